@@ -25,6 +25,10 @@ rule("C07.q", "a row count is never used where a variable count is needed (offse
 rule("C17.g", "stochastic / robust extension: the scenario copies of variables, rows and labels are offset and sized by counts of "
               "the right space (variables vs. rows)", floor=2, props=["C17", "C07"])
 
+rule("C07.x", "a running offset of the variable numbering advances by the number of variables of *every* object the loop visits: no "
+              "`continue` skips the update for an object whose variables exist (an asset without mapping rows - an order book with all "
+              "orders outside the grid - still has its variables in c, l, u)", floor=1, props=["C07", "C09"])
+
 VAR, ROW = "VAR", "ROW"
 VARC = ("c", "l", "u", "x")
 ROWC = ("b", "cType")
@@ -134,7 +138,7 @@ def _shape_args(call):
     return None
 
 
-@analysis("counts", ["C07.q", "C17.g"])
+@analysis("counts", ["C07.q", "C17.g", "C07.x"])
 def run(ctx):
     p = ctx.p
     n_q = n_g = 0
@@ -215,6 +219,37 @@ def run(ctx):
                             judge(prt.args[0], ROW if r == "b" else VAR, "length of a vector appended to %s" % r, st, prt)
                 if r in VARC + ("b",) and m in VECTOR and v.args and not isinstance(v.args[0], ast.Tuple):
                     judge(v.args[0], ROW if r == "b" else VAR, "length of %s" % r, st, v)
+    # ================================================================= C07.x the offset advances for every object
+    n_x = 0
+    for fn in sorted(p.all_functions(), key=lambda f: f.qualname):
+        if fn.parent is not None:
+            continue
+        cn = None
+        for lp in [s0 for s0 in au.walk_stmts(fn.body) if isinstance(s0, ast.For)]:
+            for k, st in enumerate(lp.body):
+                if not (isinstance(st, ast.AugAssign) and isinstance(st.op, ast.Add) and isinstance(st.target, ast.Name)):
+                    continue
+                cn = cn or Counter(ctx, fn)
+                if cn.count(st.value, st) != VAR:
+                    continue
+                n_x += 1
+                # names the counted expression needs
+                need = {x.id for x in au.walk_local(st.value) if isinstance(x, ast.Name)} - set(au.target_names(lp.target)) - {"len"}
+                skips = []
+                for prev in lp.body[:k]:
+                    if isinstance(prev, ast.If) and any(isinstance(y, (ast.Continue, ast.Break)) for y in au.walk_stmts(prev.body + prev.orelse)):
+                        # is the counted object already there when the loop is left early?
+                        defined_later = any(isinstance(z, (ast.Assign, ast.AugAssign)) and z.lineno > prev.lineno and z.lineno < st.lineno and
+                                            (need & {t for t0 in au.stmt_targets(z) for t in au.target_names(t0)}) for z in au.walk_stmts(lp.body))
+                        if not defined_later:
+                            skips.append(prev)
+                nested = p.parent(st) is not lp
+                ctx.ob("C07.x", fn, "%s advances for every object of the loop" % au.short(st, 50), not skips,
+                       "`%s` is skipped when `%s` holds, although the object whose variables it counts already exists at that point: its "
+                       "variables are in c, l and u but the numbering of everything that follows does not account for them - the assets "
+                       "listed after it point at its costs and bounds (the result depends on the order of the assets)" % (
+                           au.short(st, 50), au.short(skips[0].test, 60) if skips else ""), node=(skips[0] if skips else st))
+    ctx.require(n_x >= 1, "no running offset of variable counts found", rules=["C07.x"])
     ctx.require(n_q >= 15, "fewer than 15 typed count uses found", rules=['C07.q'])
     ctx.require(n_g >= 1, "no typed count use found in the stochastic extension", rules=['C17.g'])
 
